@@ -408,13 +408,13 @@ theorem c11_appendPC (hc : CfgOK c) (hw : WFW c cu w) (a : List Byte) (n : Nat)
   intro w' o h
   simp only [step] at h
   obtain ⟨s', h1, rfl, rfl⟩ := mutS_inv h
-  simp only [inDomain] at hd
-  obtain ⟨k, hk, hlt, hof⟩ := w2_cstr hd
+  simp only [inDomain, Bool.and_eq_true, decide_eq_true_eq] at hd
+  obtain ⟨k, hk, hlt, hof⟩ := w2_cstr hd.1
+  have hnk : n ≤ k := by have := hd.2; rw [hof, List.length_take] at this; omega
   unfold appendPN at h1
-  rw [hk, bindR_ok] at h1
-  have hm : min n k ≤ k := Nat.min_le_right _ _
-  have h2 := appendImpl_abs hc hw.1 (a := a) (pos := 0) (count := min n k) (by omega) h1
-  rw [List.drop_zero, w2_take_min, ← hof] at h2
+  rw [hk, bindR_ok, Nat.min_eq_left hnk] at h1
+  have h2 := appendImpl_abs hc hw.1 (a := a) (pos := 0) (count := n) (by omega) h1
+  rw [List.drop_zero] at h2
   exact c11_mut rfl h2
 
 theorem c11_repCCP (hc : CfgOK c) (hw : WFW c cu w) (p n : Nat) (a : List Byte)
@@ -438,14 +438,14 @@ theorem c11_repCCPC (hc : CfgOK c) (hw : WFW c cu w) (p n : Nat) (a : List Byte)
   simp only [step] at h
   obtain ⟨s', h1, rfl, rfl⟩ := mutS_inv h
   simp only [inDomain, Bool.and_eq_true, decide_eq_true_eq] at hd
-  have hp : p ≤ (abs w.s).length := hd.1
+  have hp : p ≤ (abs w.s).length := hd.1.1
   have hp' : p ≤ w.s.len := by rw [abs_length hw.1] at hp; exact hp
-  obtain ⟨k, hk, hlt, hof⟩ := w2_cstr hd.2
+  obtain ⟨k, hk, hlt, hof⟩ := w2_cstr hd.1.2
+  have hnk : n2 ≤ k := by have := hd.2; rw [hof, List.length_take] at this; omega
   unfold replacePN at h1
-  rw [hk, bindR_ok] at h1
-  have hm : min n2 k ≤ k := Nat.min_le_right _ _
-  have h2 := replaceImpl_abs hc hw.1 p n (a := a) (pos2 := 0) (count2 := min n2 k) hp' (by omega) h1
-  rw [List.drop_zero, w2_take_min, ← hof] at h2
+  rw [hk, bindR_ok, Nat.min_eq_left hnk] at h1
+  have h2 := replaceImpl_abs hc hw.1 p n (a := a) (pos2 := 0) (count2 := n2) hp' (by omega) h1
+  rw [List.drop_zero] at h2
   exact c11_mut (w2_spec_replace _ _ p n hp) h2
 
 
